@@ -401,13 +401,21 @@ def solve_job(job):
                 reason = "probe unknown (treated as satisfiable): " + s.reason_unknown()
         else:
             ground_sat_model = None
-            if job["ground"] is not None:
+            if job["ground"] is not None and len(job["ground"]) > 300000:
+                # a very large ground instantiation: the quantified VC itself is often the easier query
+                r, s, a = _check_text(job["full"], max(2.0, T / 3))
+                if r == z3.unsat:
+                    verdict, backend = "proved", "z3-%s(api)" % z3.get_version_string()
+                elif r == z3.sat:
+                    verdict, backend = "refuted", "z3-%s(api)" % z3.get_version_string()
+                    model = _model_dict(s.model(), _consts_of(a))
+            if verdict == "undecided" and job["ground"] is not None:
                 r, s, a = _check_text(job["ground"], max(2.0, T / 2))
                 if r == z3.unsat:
                     verdict, backend = "proved", "z3-%s(api, ground-instantiated hypotheses)" % z3.get_version_string()
                 elif r == z3.sat:
                     ground_sat_model = _model_dict(s.model(), _consts_of(a))
-            if verdict != "proved":
+            if verdict == "undecided":
                 r, s, a = _check_text(job["full"], T)
                 backend = "z3-%s(api)" % z3.get_version_string()
                 if r == z3.unsat:
